@@ -122,6 +122,8 @@ def run_case(item):
     avoid = set(avoid)
     if avoid and rng.random() < 0.12:
         avoid = set()          # a minority of runs confirms the known findings are still there
+    from . import gen as _gen
+    _gen.AVOID = set(avoid)
     case = o.gen_case(rng, tier, avoid)
     case['property'] = prop
     case['seed'] = seed
@@ -213,6 +215,10 @@ def main_check(prop, tier, seed, cases=None, wall=None, workers=None, out=sys.st
                 print('KNOWN-FINDING: property=%s %s (no replay file)' % (prop, f.text), file=out)
             continue
         p = os.path.join(ROOT, f.replay)
+        if not os.path.exists(p):
+            if f.state == 'open':
+                print('KNOWN-FINDING: property=%s %s reproduced=unknown (replay file %s missing)' % (prop, f.text, f.replay), file=out)
+            continue
         try:
             rr = runner.run_cases('sim.engine', 'replay_worker', [(p, prop)], workers=1)[0]
         except Exception as e:     # pragma: no cover
